@@ -59,7 +59,7 @@ def _tuple_clauses(fld):
     }
 
 
-contract(Q + 'IdManager.prepare', ['C03', 'C01', 'C02'],
+contract(Q + 'IdManager.prepare', ['C03x'],
          requires={'exprs': 'forall(lambda q: self.expressions[q] is not None, 0, len(self.expressions))'},
          modifies=['self.free_betas', 'self.bounds', 'self.number_of_free_betas', 'self.fixed_betas',
                    'self.random_variables', 'self.draws', 'self.variables', 'self.elementary_expressions',
